@@ -15,7 +15,12 @@ pub ghost struct WalletState {
     pub contexts: Map<Seq<u8>, Context>,             // 'p' private contexts by slate id
     pub conf_height: Map<Identifier, u64>,           // 'c'
     pub parent: Identifier,                          // active account
+    pub accounts: Map<Seq<char>, AcctPathMapping>,   // 'a' label -> path
+    // not stored in the database: the in-memory keychain and which mask tokens unlock it (C14)
+    pub has_keychain: bool,
+    pub valid_masks: Set<Option<SecretKey>>,
 }
+pub open spec fn opt_key(m: Option<&SecretKey>) -> Option<SecretKey> { match m { Some(k) => Some(*k), None => None } }
 
 pub open spec fn out_key(o: OutputData) -> OutKey { (o.key_id, o.mmr_index) }
 
@@ -29,6 +34,11 @@ pub open spec fn enumerates_outputs(s: Seq<OutputData>, m: Map<OutKey, OutputDat
 // storage (cursor) order is a function of the table's content
 pub uninterp spec fn seq_of_outputs(m: Map<OutKey, OutputData>) -> Seq<OutputData>;
 pub uninterp spec fn seq_of_log(m: Map<(Identifier, u32), TxLogEntry>) -> Seq<TxLogEntry>;
+// (axiom) the storage-order enumeration lists every record exactly once
+#[verifier::external_body]
+pub proof fn axiom_seq_of_log(m: Map<(Identifier, u32), TxLogEntry>) ensures enumerates_log(seq_of_log(m), m) { }
+#[verifier::external_body]
+pub proof fn axiom_seq_of_outputs(m: Map<OutKey, OutputData>) ensures enumerates_outputs(seq_of_outputs(m), m) { }
 pub open spec fn log_key(t: TxLogEntry) -> (Identifier, u32) { (t.parent_key_id, t.id) }
 pub open spec fn enumerates_log(s: Seq<TxLogEntry>, m: Map<(Identifier, u32), TxLogEntry>) -> bool {
     &&& forall|i: int| 0 <= i < s.len() ==> #[trigger] m.dom().contains(log_key(s[i])) && m[log_key(s[i])] == s[i]
@@ -65,25 +75,23 @@ pub uninterp spec fn spec_mask_valid(mask: Option<&SecretKey>, w: WalletState) -
 
 pub trait WalletBackend<'ck, C, K> where C: NodeClient + 'ck, K: Keychain + 'ck {
     spec fn state(&self) -> WalletState;
-    // keychain present (wallet open) and stored checksum data — see lmdb units (C14)
-    spec fn has_keychain(&self) -> bool;
-    spec fn mask_valid(&self, mask: Option<&SecretKey>) -> bool;
+    // keychain present (wallet open) / the token unlocks it — see lmdb units (C14)
 
     fn keychain(&self, mask: Option<&SecretKey>) -> (r: Result<K, Error>)
         ensures
-            r is Ok ==> self.has_keychain() && self.mask_valid(mask),
-            (self.has_keychain() && !self.mask_valid(mask)) ==> r == Err::<K, Error>(Error::InvalidKeychainMask),
-            !self.has_keychain() ==> r == Err::<K, Error>(Error::KeychainDoesntExist);
+            r is Ok ==> self.state().has_keychain && self.state().valid_masks.contains(opt_key(mask)),
+            (self.state().has_keychain && !self.state().valid_masks.contains(opt_key(mask))) ==> r == Err::<K, Error>(Error::InvalidKeychainMask),
+            !self.state().has_keychain ==> r == Err::<K, Error>(Error::KeychainDoesntExist);
 
     fn calc_commit_for_cache(&mut self, keychain_mask: Option<&SecretKey>, amount: u64, id: &Identifier) -> (r: Result<Option<String>, Error>)
         ensures final(self).state() == old(self).state(),
-            final(self).has_keychain() == old(self).has_keychain(),
-            forall|m: Option<&SecretKey>| final(self).mask_valid(m) == old(self).mask_valid(m);
+            final(self).state().has_keychain == old(self).state().has_keychain,
+            final(self).state().valid_masks == old(self).state().valid_masks;
 
     fn parent_key_id(&mut self) -> (r: Identifier)
         ensures final(self).state() == old(self).state(), r == old(self).state().parent,
-            final(self).has_keychain() == old(self).has_keychain(),
-            forall|m: Option<&SecretKey>| final(self).mask_valid(m) == old(self).mask_valid(m);
+            final(self).state().has_keychain == old(self).state().has_keychain,
+            final(self).state().valid_masks == old(self).state().valid_masks;
 
     fn iter<'a>(&'a self) -> (r: VIter<OutputData>)
         ensures enumerates_outputs(r@, self.state().outputs), r@ == seq_of_outputs(self.state().outputs);
@@ -93,10 +101,10 @@ pub trait WalletBackend<'ck, C, K> where C: NodeClient + 'ck, K: Keychain + 'ck 
 
     fn get_private_context(&mut self, keychain_mask: Option<&SecretKey>, slate_id: &[u8]) -> (r: Result<Context, Error>)
         ensures final(self).state() == old(self).state(),
-            final(self).has_keychain() == old(self).has_keychain(),
-            forall|m: Option<&SecretKey>| final(self).mask_valid(m) == old(self).mask_valid(m),
+            final(self).state().has_keychain == old(self).state().has_keychain,
+            final(self).state().valid_masks == old(self).state().valid_masks,
             r matches Ok(c) ==> old(self).state().contexts.dom().contains(slate_id@) && c == old(self).state().contexts[slate_id@]
-                && old(self).has_keychain() && old(self).mask_valid(keychain_mask),
+                && old(self).state().has_keychain && old(self).state().valid_masks.contains(opt_key(keychain_mask)),
             !old(self).state().contexts.dom().contains(slate_id@) ==> r is Err;
 
     fn tx_log_iter<'a>(&'a self) -> (r: VIter<TxLogEntry>)
@@ -104,18 +112,18 @@ pub trait WalletBackend<'ck, C, K> where C: NodeClient + 'ck, K: Keychain + 'ck 
 
     fn batch<'a>(&'a mut self, keychain_mask: Option<&SecretKey>) -> (r: Result<Box<dyn WalletOutputBatch<K> + 'a>, Error>)
         ensures
-            r matches Ok(b) ==> old(self).has_keychain() && old(self).mask_valid(keychain_mask)
+            r matches Ok(b) ==> old(self).state().has_keychain && old(self).state().valid_masks.contains(opt_key(keychain_mask))
                 && b.base() == old(self).state() && b.view() == old(self).state() && b.result() == final(self).state(),
             r is Err ==> final(self).state() == old(self).state(),
-            final(self).has_keychain() == old(self).has_keychain(),
-            forall|m: Option<&SecretKey>| final(self).mask_valid(m) == old(self).mask_valid(m),
-            (!old(self).has_keychain() || !old(self).mask_valid(keychain_mask)) ==> r is Err;
+            final(self).state().has_keychain == old(self).state().has_keychain,
+            final(self).state().valid_masks == old(self).state().valid_masks,
+            (!old(self).state().has_keychain || !old(self).state().valid_masks.contains(opt_key(keychain_mask))) ==> r is Err;
 
     // LMDBBackend::next_child is itself a unit (C15) verified against this clause
     fn next_child(&mut self, keychain_mask: Option<&SecretKey>) -> (r: Result<Identifier, Error>)
         ensures
-            final(self).has_keychain() == old(self).has_keychain(),
-            forall|m: Option<&SecretKey>| final(self).mask_valid(m) == old(self).mask_valid(m),
+            final(self).state().has_keychain == old(self).state().has_keychain,
+            final(self).state().valid_masks == old(self).state().valid_masks,
             r matches Ok(id) ==> {
                 let p = old(self).state().parent;
                 let n = if old(self).state().child_idx.dom().contains(p) { old(self).state().child_idx[p] } else { 0u32 };
@@ -123,16 +131,21 @@ pub trait WalletBackend<'ck, C, K> where C: NodeClient + 'ck, K: Keychain + 'ck 
                 &&& n < u32::MAX
                 &&& final(self).state() == (WalletState { child_idx: old(self).state().child_idx.insert(p, (n + 1) as u32), ..old(self).state() })
             },
-            r is Err ==> final(self).state() == old(self).state();
+            r is Err ==> final(self).state() == old(self).state(),
+            (!old(self).state().has_keychain || !old(self).state().valid_masks.contains(opt_key(keychain_mask))) ==> r is Err;
 
     fn last_confirmed_height(&mut self) -> (r: Result<u64, Error>)
         ensures final(self).state() == old(self).state(),
-            final(self).has_keychain() == old(self).has_keychain(),
-            forall|m: Option<&SecretKey>| final(self).mask_valid(m) == old(self).mask_valid(m),
+            final(self).state().has_keychain == old(self).state().has_keychain,
+            final(self).state().valid_masks == old(self).state().valid_masks,
             r matches Ok(h) ==> h == spec_conf_height(old(self).state()),
             r matches Err(e) ==> store_err(e);
 
     fn store_tx(&self, uuid: &str, tx: &Transaction) -> (r: Result<(), Error>);
+
+    fn get_acct_path(&self, label: String) -> (r: Result<Option<AcctPathMapping>, Error>)
+        ensures r matches Ok(v) ==> v == (if self.state().accounts.dom().contains(label@) { Some(self.state().accounts[label@]) } else { None::<AcctPathMapping> }),
+            r matches Err(e) ==> store_err(e);
 }
 
 // A-store-errors: the storage layer reports storage-class errors only, never a protocol verdict
